@@ -96,6 +96,8 @@ class GenCfg:
     p_overhang: float = 0.0          # an operator ends 1-2 us BEFORE its last child (timer glitch: not properly nested any more)
     p_nested_annotation: float = 0.0 # a child slot of an operator becomes a user annotation that wraps further operators
     bwd_end_tie: bool = False        # the last autograd operator inside a backward annotation / profiler step ends exactly when that one ends
+    p_graph_launch: float = 0.0      # a launch call starts SEVERAL kernels that all carry its correlation id (CUDA graph launch); outside the
+                                     # "one host call, one device activity per id" domain, so only for properties without that restriction
     big_vocab: bool = False          # rank 0 uses > 130 distinct operator names and every later rank one name of its own: the later
                                      # ranks' own symbols get job-wide ids >= 128 although their files hold few symbols
     same_tid_process: bool = False   # the first extra host thread belongs to ANOTHER process and has the same tid as the main thread
@@ -195,9 +197,17 @@ class _Sim:
             self.host(rt_cat, call, tid, t, dur_call, cbid=211, correlation=corr)
         if keep_kernel:
             self.dev(cat, kname, stream, start, kdur, corr, **kargs)
+        end_all = start + kdur
+        if not is_mem and keep_kernel and rng.random() < cfg.p_graph_launch:
+            for _ in range(rng.randint(1, 2)):
+                d2 = rng.choice(cfg.kdur)
+                s2 = end_all + rng.choice((0, 1))
+                self.dev("kernel", rng.choice(K_COMP), stream, s2, d2, corr, queued=0)
+                self.last_start[stream] = s2
+                end_all = s2 + d2
         # the stream is busy regardless of whether the file shows the activity
-        self.last_end[stream] = start + kdur
-        self.launched.setdefault(stream, []).append(start + kdur)
+        self.last_end[stream] = end_all
+        self.launched.setdefault(stream, []).append(end_all)
         return t + dur_call
 
     def other_rt(self, tid: int, t: int) -> int:
